@@ -2186,8 +2186,12 @@ class ExpressionEvaluator(Parser):
             value = escapes[token[1]]
         else:
             value = ord(token[1])
+        if prefix == "L":
+            # wchar_t is a signed 32-bit type.
+            value &= 0xFFFFFFFF
+            return value - 2**32 if value > 0x7FFFFFFF else value
         if prefix:
-            # Wide character types hold the value as it is.
+            # char16_t and char32_t hold the value as it is.
             return value
         # Plain char is signed: values above 127 are negative.
         value &= 0xFF
